@@ -53,8 +53,8 @@ var raceSolvers = append(append([]solverSpec{}, solvers...),
 
 // wallFactor: the time limit of a solver run is a CPU-time limit (ulimit -t), so that a verdict does not depend on how loaded
 // the machine is (a goal that needs 2 s of CPU must not time out because 100 other processes compete for the cores); the
-// wall-clock limit is only a backstop, wallFactor times larger.
-const wallFactor = 10
+// wall-clock limit is only a backstop, wallFactor times larger (load 250 on 16 cores was seen while building this).
+const wallFactor = 30
 
 func runSolver(ctx context.Context, s solverSpec, file string, timeoutS int, seed int) (status string, out string, dur float64) {
 	args := s.args(file, timeoutS*wallFactor, seed)
